@@ -252,6 +252,31 @@ impl Gate {
 /// Also used by c05wire.rs (with a gate that is never armed) for the kind-5 handlers.
 pub fn customize(g2: Arc<Gate>) -> impl Fn(&[(String, X)], &mut Host, &Arc<pipe::Shared>) {
     move |kv: &[(String, X)], host: &mut Host, shared: &Arc<pipe::Shared>| {
+        // cfg `ovroutes` = (L (L public-path internal-target) ...): ONE Prime extension that answers a request whose path is
+        // `public-path` with the internal URI `internal-target` ("/./..." [+ "?query"]): the request's own URI is left
+        // alone, the page is handled, looked up and cached under the internal URI (Model/Vary.v `route_fix`).  It runs
+        // after the Primes of Extensions::new() (uri_redirect, CORS), so it sees the rewritten path and has the last word.
+        if let Some(routes) = kv.iter().find(|(n, _)| n == "ovroutes").and_then(|(_, v)| v.as_l()) {
+            let mut table: Vec<(String, Uri)> = Vec::new();
+            for r in routes {
+                if let Some([X::B(from), X::B(to)]) = r.as_l() {
+                    if to.starts_with(b"/./") {
+                        if let Ok(uri) = Uri::try_from(&to[..]) {
+                            table.push((String::from_utf8_lossy(from).into_owned(), uri));
+                        }
+                    }
+                }
+            }
+            if !table.is_empty() {
+                let table = Arc::new(table);
+                host.extensions.add_prime(
+                    prime!(req, _host, _addr, move |table: Arc<Vec<(String, Uri)>>| {
+                        table.iter().find(|(from, _)| from == req.uri().path()).map(|(_, to)| to.clone())
+                    }),
+                    extensions::Id::new(-1000, "verif: internal routes"),
+                );
+            }
+        }
         let handlers = match kv.iter().find(|(n, _)| n == "handlers").and_then(|(_, v)| v.as_l()) {
             Some(h) => h,
             None => return,
